@@ -84,6 +84,16 @@ MutFaults == UNION {{Mutate(i, k, x) : k \in KindsOf(Fields[i]), x \in FixOpts(F
 TruncFaults == {Truncate(j) : j \in 1..Len(TruncPoints)}
 AllFaults == MutFaults \cup TruncFaults
 
+\* membership in the fault space without building it (used by the judge on every observation)
+InFaultSpace(f) ==
+    \/ /\ f.t = "mutate"
+       /\ \E i \in FieldIdx : /\ Fields[i].id = f.field
+                              /\ f.kind \in KindsOf(Fields[i])
+                              /\ f.fix \in FixOpts(Fields[i])
+                              /\ f = Mutate(i, f.kind, f.fix)
+    \/ /\ f.t = "truncate"
+       /\ \E j \in 1..Len(TruncPoints) : TruncPoints[j].at = f.at /\ f = Truncate(j)
+
 \* two faults combine when they are not on the same field and at most one truncates
 Compatible(f, fs) == \A g \in fs : /\ f # g
                                     /\ ~(f.t = "truncate" /\ g.t = "truncate")
@@ -119,7 +129,7 @@ InventoryOK ==
     /\ \A j \in 1..Len(TruncPoints) : TruncPoints[j].at >= 0 /\ TruncPoints[j].at < ImageSize
 ASSUME InventoryOK
 
-StateOK == /\ faults \subseteq AllFaults
+StateOK == /\ \A f \in faults : InFaultSpace(f)
            /\ Cardinality(faults) <= MaxFaults
            /\ Cardinality({f \in faults : f.t = "truncate"}) <= 1
            /\ \A f, g \in faults : (f.t = "mutate" /\ g.t = "mutate" /\ f.field = g.field) => f = g
